@@ -2,4 +2,4 @@ From Coq Require Import List Arith ZArith.
 From BQ Require Import cost.MultiStart.
 From Coq Require Extraction ExtrOcamlBasic.
 Extraction "cost_model.ml" set_params params_of num_params sorted_by choose gen_starting_points
-  multi_start rank_cost select instantiate Z.ltb.
+  multi_start rank_cost select instantiate Z.ltb fltb.
